@@ -67,7 +67,15 @@ var loopCount = 0
 var lastChild = ""
 var loopDepth = 6
 
+// BuildRCallChain starts a new generation: the expansion budget and the
+// last expanded caller of an earlier generation must not limit this one.
 func (c RCallGraph) BuildRCallChain(funcName string, methodMap map[string][]string) string {
+	loopCount = 0
+	lastChild = ""
+	return c.buildRCallChain(funcName, methodMap)
+}
+
+func (c RCallGraph) buildRCallChain(funcName string, methodMap map[string][]string) string {
 	if loopCount >= loopDepth {
 		return "\n"
 	}
@@ -81,7 +89,7 @@ func (c RCallGraph) BuildRCallChain(funcName string, methodMap map[string][]stri
 			}
 			if len(methodMap[child]) > 0 && child != lastChild {
 				lastChild = child
-				arrayResult = arrayResult + c.BuildRCallChain(child, methodMap)
+				arrayResult = arrayResult + c.buildRCallChain(child, methodMap)
 			}
 			newCall := "\"" + escapeStr(child) + "\" -> \"" + escapeStr(funcName) + "\";\n"
 			arrayResult = arrayResult + newCall
